@@ -76,6 +76,12 @@ func init() {
 	mutant(&Mutant{Name: "c05-peek-index-not-clamped", Property: "C05", File: "svg/buffer.go",
 		Old: "\t\t\t\tbuf = buf[:i+1]\n\t\t\t\tpos = i\n", New: "\t\t\t\tbuf = buf[:i+1]\n",
 		Rule: "R05.12", Construct: "index clamped"})
+	mutant(&Mutant{Name: "c05-hex-last-pair-not-compared", Property: "C05", File: "svg/svg.go",
+		Old: "} else if len(val) == 7 && val[1] == val[2] && val[3] == val[4] && val[5] == val[6] {", New: "} else if len(val) == 7 && val[1] == val[2] && val[3] == val[4] {",
+		Rule: "R05.17", Construct: "val cut to 4 bytes"})
+	mutant(&Mutant{Name: "c05-colour-lower-cased", Property: "C05", File: "svg/svg.go",
+		Old: "\t\t\t\t//parse.ToLower(val)\n", New: "\t\t\t\tval = parse.ToLower(val)\n",
+		Rule: "R05.18", Construct: "colour value changed by"})
 	mutant(&Mutant{Name: "c05-drop-title", Property: "C05", File: "svg/svg.go",
 		Old: "\t\t\tif tag == Metadata {\n\t\t\t\tt.Data = nil\n", New: "\t\t\tif tag == Metadata {\n\t\t\t\tt.Data = nil\n\t\t\t} else if tag == Style {\n\t\t\t\tt.Data = nil\n",
 		Rule: "R05.3", Construct: "element dropped"})
@@ -99,6 +105,8 @@ func runC05(c *Ctx) {
 	c.r0514(pk)
 	c.r0515(pk)
 	c.r0516(pk)
+	c.hexCompaction("R05.17", "svg", 1)
+	c.r0518(pk)
 	// Inline decides whether the root element keeps its xmlns: it is a per-call fact and must not be written
 	// into the shared option struct (a later standalone document would lose its namespace)
 	c.alsoUnder(map[string]string{"R13.1": "R05.11"}, func(construct string) bool { return strings.Contains(construct, "svg.") }, func() { c.r131() })
@@ -1475,4 +1483,191 @@ func (c *Ctx) r0516(pk *packages.Package) {
 		}
 	}
 	c.R.Floor(rule, "raw token writes in package svg", n, 5)
+}
+
+// hexCompaction (R04.14 for css, R05.17 for svg): #rrggbb becomes #rgb only when the digits of every pair are equal.
+func (c *Ctx) hexCompaction(rule, rel string, floor int) {
+	c.R.Rule(rule, "package "+rel+": a hex colour is compacted in place — digit i of the short form is fetched from position 2i-1 (`v[2] = v[3]`, `v[3] = v[5]`, `v[4] = v[7]`) and the value is cut to `v[:k]` (k = 4 or 5). That is the same colour only when both digits of every channel are equal, so the cut is dominated by the true outcomes of v[1]==v[2], v[3]==v[4], v[5]==v[6] (and v[7]==v[8] for k = 5), and the stores are exactly the ones named. `#aabbc1` must not become `#abc`")
+	pk := c.pkg(rule, rel)
+	if pk == nil {
+		return
+	}
+	info := pk.TypesInfo
+	n := 0
+	for _, fd := range load.FuncDecls(pk) {
+		if fd.Body == nil {
+			continue
+		}
+		var g *flow.Graph
+		seen := 0
+		ast.Inspect(fd.Body, func(x ast.Node) bool {
+			blk, ok := x.(*ast.BlockStmt)
+			if !ok {
+				return true
+			}
+			// stores v[i] = v[j] and a cut v = v[:k] in one block
+			var v string
+			var cut *ast.AssignStmt
+			var k int64
+			stores := map[int64]int64{}
+			for _, st := range blk.List {
+				as, ok := st.(*ast.AssignStmt)
+				if !ok || len(as.Lhs) != 1 || len(as.Rhs) != 1 {
+					continue
+				}
+				if li, ok := as.Lhs[0].(*ast.IndexExpr); ok {
+					if ri, ok := ast.Unparen(as.Rhs[0]).(*ast.IndexExpr); ok && nospace(str(li.X)) == nospace(str(ri.X)) {
+						a, oka := intConst(info, li.Index)
+						b, okb := intConst(info, ri.Index)
+						if oka && okb {
+							if v == "" || v == nospace(str(li.X)) {
+								v = nospace(str(li.X))
+								stores[a] = b
+							}
+						}
+					}
+				} else if se, ok := ast.Unparen(as.Rhs[0]).(*ast.SliceExpr); ok && se.Low == nil && se.High != nil && nospace(str(as.Lhs[0])) == nospace(str(se.X)) {
+					if kk, ok := intConst(info, se.High); ok && (kk == 4 || kk == 5) && (v == "" || v == nospace(str(se.X))) {
+						v, cut, k = nospace(str(se.X)), as, kk
+					}
+				}
+			}
+			if cut == nil || len(stores) == 0 {
+				return true
+			}
+			n++
+			seen++
+			if g == nil {
+				g = c.graph(pk, fd)
+			}
+			construct := fmt.Sprintf("%s.%s/%s cut to %d bytes#%d", pk.Name, load.FuncName(fd), v, k, seen)
+			// stores exactly i <- 2i-1 for i = 2..k-1
+			okStores := int64(len(stores)) == k-2
+			for i := int64(2); i < k; i++ {
+				if stores[i] != 2*i-1 {
+					okStores = false
+				}
+			}
+			have := map[string]bool{}
+			if y := g.NodeOf(cut); y != nil {
+				for _, f := range g.DomFacts(y) {
+					if !f.Value || f.Test.Kind != flow.KCond {
+						continue
+					}
+					b, ok := ast.Unparen(f.Test.Expr).(*ast.BinaryExpr)
+					if !ok || b.Op != token.EQL {
+						continue
+					}
+					xi, ok1 := ast.Unparen(b.X).(*ast.IndexExpr)
+					yi, ok2 := ast.Unparen(b.Y).(*ast.IndexExpr)
+					if !ok1 || !ok2 || nospace(str(xi.X)) != v || nospace(str(yi.X)) != v {
+						continue
+					}
+					a, oka := intConst(info, xi.Index)
+					bb, okb := intConst(info, yi.Index)
+					if oka && okb {
+						if a > bb {
+							a, bb = bb, a
+						}
+						have[fmt.Sprintf("%d=%d", a, bb)] = true
+					}
+				}
+			}
+			var missing []string
+			for i := int64(1); i < k; i++ {
+				if !have[fmt.Sprintf("%d=%d", 2*i-1, 2*i)] {
+					missing = append(missing, fmt.Sprintf("%s[%d]==%s[%d]", v, 2*i-1, v, 2*i))
+				}
+			}
+			c.R.Check(okStores && len(missing) == 0, rule, construct, c.pos(cut), "all pairs compared, digits fetched from 2i-1", fmt.Sprintf("the colour is shortened although not every channel is known to have two equal digits (missing: %s; stores as expected: %v): `#aabbc1` would become `#abc`", strings.Join(missing, ", "), okStores))
+			return true
+		})
+	}
+	c.R.Floor(rule, "hex compaction sites", n, floor)
+}
+
+// R05.18: in the colour branch of the SVG minifier the value changes only by a table entry or a judged compaction.
+func (c *Ctx) r0518(pk *packages.Package) {
+	const rule = "R05.18"
+	c.R.Rule(rule, "svg.Minifier.Minify, attribute values behind the true outcome of `colorAttrMap[attr]`: the value is reassigned only to (a) the result of a look-up in css.ShortenColorHex / css.ShortenColorName (tables checked by R17.colors) or (b) the cut of a judged hex compaction (R05.17), and its bytes are stored to only as part of (b). Any other rewrite of a colour value — a helper function, a case mapping — cannot be judged by these rules and is reported as undecided rather than passed")
+	info := pk.TypesInfo
+	fd := c.fn(rule, pk, "Minifier.Minify")
+	if fd == nil {
+		return
+	}
+	g := c.graph(pk, fd)
+	inColour := func(y *flow.Node) bool {
+		for _, f := range g.DomFacts(y) {
+			if f.Value && f.Test.Kind == flow.KCond && strings.HasPrefix(nospace(str(f.Test.Expr)), "colorAttrMap[") {
+				return true
+			}
+		}
+		return false
+	}
+	n := 0
+	for _, y := range g.Nodes {
+		as, ok := y.Stmt.(*ast.AssignStmt)
+		if !ok || y.Kind != flow.KStmt || !inColour(y) {
+			continue
+		}
+		for i, l := range as.Lhs {
+			base := l
+			isElem := false
+			if ie, ok := l.(*ast.IndexExpr); ok {
+				base, isElem = ie.X, true
+			}
+			if nospace(str(base)) != "val" {
+				continue
+			}
+			n++
+			var rhs ast.Expr
+			if len(as.Rhs) == len(as.Lhs) {
+				rhs = as.Rhs[i]
+			}
+			ok := false
+			what := "-"
+			if rhs != nil {
+				what = str(rhs)
+				switch r := ast.Unparen(rhs).(type) {
+				case *ast.Ident:
+					// defined by a look-up in one of the two tables
+					if o := info.Uses[r]; o != nil {
+						ast.Inspect(fd.Body, func(z ast.Node) bool {
+							d, isAs := z.(*ast.AssignStmt)
+							if !isAs || len(d.Rhs) != 1 {
+								return true
+							}
+							for _, dl := range d.Lhs {
+								if id, isId := dl.(*ast.Ident); isId && info.Defs[id] == o {
+									if ie, isIdx := ast.Unparen(d.Rhs[0]).(*ast.IndexExpr); isIdx {
+										t := nospace(str(ie.X))
+										if t == "css.ShortenColorHex" || t == "css.ShortenColorName" {
+											ok = true
+										}
+									}
+								}
+							}
+							return true
+						})
+					}
+				case *ast.SliceExpr:
+					if nospace(str(r.X)) == "val" && r.Low == nil {
+						if k, isK := intConst(info, r.High); isK && (k == 4 || k == 5) {
+							ok = true // judged by R05.17
+						}
+					}
+				case *ast.IndexExpr:
+					if isElem && nospace(str(r.X)) == "val" {
+						ok = true // a digit move, judged by R05.17 together with its cut
+					}
+				}
+			}
+			if ok {
+				c.R.OK(rule, fmt.Sprintf("svg.Minifier.Minify/colour value changed by %s#%d", nospace(what), n), c.pos(as), "table entry or judged compaction")
+			} else {
+				c.R.Unres(rule, fmt.Sprintf("svg.Minifier.Minify/colour value changed by %s#%d", nospace(what), n), c.pos(as), "a colour value is rewritten by `"+stmtText(as)+"`, which is neither a look-up in the colour tables nor the in-place compaction judged by R05.17: whether it yields the same colour cannot be decided by this rule")
+			}
+		}
+	}
+	c.R.Floor(rule, "rewrites of a colour value", n, 4)
 }
